@@ -597,12 +597,12 @@ func (self *Core) runInstruction(instruction compiler.Instruction) *value.VmInte
 		)
 	case compiler.Opcode_SetTryLabel:
 		i := instruction.(compiler.OneIntOneStringInstruction)
-		self.ExceptionCatchLabels = append(self.ExceptionCatchLabels, CallFrame{
+		self.pushTryLabel(CallFrame{
 			Function:           i.ValueString,
 			InstructionPointer: uint(i.ValueInt),
 		})
 	case compiler.Opcode_PopTryLabel:
-		self.ExceptionCatchLabels = self.ExceptionCatchLabels[:len(self.ExceptionCatchLabels)-1]
+		self.popTryLabel()
 	case compiler.Opcode_Member:
 		i := instruction.(compiler.OneStringInstruction)
 
